@@ -7,7 +7,7 @@ func init() { checks["corrupt"] = runCorrupt }
 func runCorrupt(rep *Report) {
 	tot := engine.CorruptStats{}
 	for i := 0; i < *fN; i++ {
-		if !mine(i) {
+		if !startProgram(i) {
 			continue
 		}
 		ps := progSeed(*fSeed, i)
